@@ -322,3 +322,5 @@ _quick("C07", "C07_ms", "a hold with the millisecond flag and E = 30000 ms, pers
 _quick("C03", "C03_textpush", "0..6 text PUSH commands (each granted at once) on one connection, then LOCK and UNLOCK on another key: every PUSH answered once (a PUSH that blocks the connection is a violation), LOCK and UNLOCK answered with their own result and LockId, nothing left over", ["-witness", "3"], reach=["end", "pushed"], blocked="violation")
 
 _quick("C09", "C09_cut", "the real ReplicationClient.InitSync against a scripted leader whose answer to the first SYNC (position H) is followed by the end of the stream, before any record; the follower's SYNC on its next connection (decoded from what it writes) must ask for everything, not for the records after H", ["-witness", "2"])
+
+_quick("C15", "C15_textnum", "SET k to the decimal string of 0 / 7 / 10 / 99, then INCR k or DECRBY k 3, then GET k, on a real TextServerProtocol: answers of a plain key-value store", ["-witness", "2"], reach=[])
